@@ -111,6 +111,14 @@ var e2eBackend struct {
 	body     []byte
 	status   int
 	respBody []byte
+	log      []e2eSeen // every forwarded request, in arrival order at the backend
+}
+
+type e2eSeen struct {
+	path string
+	ja3  []string
+	h2   []string
+	xff  []string
 }
 
 // the backend
@@ -120,6 +128,7 @@ func e2eRoundTrip(t *http.Transport, r *http.Request) (*http.Response, error) {
 	e2eBackend.n++
 	e2eBackend.method, e2eBackend.url, e2eBackend.host = r.Method, r.URL.String(), r.Host
 	e2eBackend.header = r.Header.Clone()
+	e2eBackend.log = append(e2eBackend.log, e2eSeen{path: r.URL.Path, ja3: r.Header["X-Ja3-Fingerprint"], h2: r.Header["X-Http2-Fingerprint"], xff: r.Header["X-Forwarded-For"]})
 	if r.Body != nil {
 		e2eBackend.body, _ = io.ReadAll(r.Body)
 	}
@@ -147,7 +156,7 @@ func e2eStrp(s string) *string { return &s }
 func e2eBoolp(b bool) *bool    { return &b }
 
 func e2eH2(full bool) {
-	vThreads()
+	vSchedulePolicy(vRange("schedulePolicy", 0, 2)) // thread mode, under each of the three scheduling policies
 	// ---- configuration, as flags
 	preserve, probes := vBool("flag.preserveHost"), vBool("flag.kubernetesProbe")
 	flagPreserveHost, flagEnableKubernetesProbe, flagVerboseLogs = e2eBoolp(preserve), e2eBoolp(probes), e2eBoolp(false)
